@@ -28,6 +28,7 @@ Fixpoint writes (prog : list astep) : list path :=
       | Advertise src _ => [src]
       | Rename src _ => [src]
       | Rebuild _ _ tmp => [tmp]
+      | Head o dir _ | IdxStat o dir _ _ | Get o dir _ => [PTmpFile dir o]
       | _ => []
       end ++ writes r
   end.
@@ -41,9 +42,13 @@ Proof. destruct p; simpl; congruence. Qed.
 Section Inv.
 Variable gunzip : content -> content.
 Variable origin : path -> content.
+Variable srv : server.
 (* the uncompressed tar the origin stands for is the gunzip of its data section *)
 Hypothesis gunzip_ok : forall dir h,
   gunzip (origin (PMember dir MDat h)) = origin (PMember dir MTar h).
+(* an etag identifies one index content: whenever the origin answers with etag e,
+   the body is [origin (PIndex dir e)] *)
+Hypothesis srv_ok : forall t dir, snd (srv t dir) = origin (PIndex dir (fst (srv t dir))).
 
 (* steps that only touch the builder's own temporary names *)
 Definition own_step (o : nat) (a : astep) : Prop :=
@@ -73,6 +78,10 @@ Fixpoint prog_ok (o : nat) (d : disk) (prog : list astep) : Prop :=
       (* PackageData ends the program; it rebuilds <h>.dat.tar from <h>.dat.tar.gz of the same directory *)
       rest = [] /\ owner tmp = Some o /\
       exists dir h, gz = PMember dir MDat h /\ tar = PMember dir MTar h
+  (* the index download: the file is named by the etag of the GET response *)
+  | Head o' _ byhead :: rest => rest = [] /\ o' = o /\ byhead = false
+  | IdxStat o' _ _ byhead :: rest => rest = [] /\ o' = o /\ byhead = false
+  | Get o' _ name :: rest => rest = [] /\ o' = o /\ name = None
   | a :: rest => own_step o a /\ prog_ok o (fst (exec gunzip d a)) rest
   end.
 
@@ -122,6 +131,9 @@ Proof.
     destruct H as (H1 & H2 & H3 & H4). repeat split; auto.
     + rewrite <- (Ha src H1). exact H3.
     + eapply IH; [|exact H4]. apply agree_upd; auto.
+  - exact H.
+  - exact H.
+  - exact H.
 Qed.
 
 Lemma writes_owned : forall prog o d, prog_ok o d prog ->
@@ -135,6 +147,9 @@ Proof.
   - destruct H as (_ & _ & _ & _ & H5). eapply IH; eauto.
   - destruct H as (-> & H1 & _). destruct Hin as [<-|[]]. exact H1.
   - destruct H as (H1 & _ & _ & H4). destruct Hin as [<-|Hin]; [exact H1 | eapply IH; eauto].
+  - destruct H as (-> & -> & _). destruct Hin as [<-|[]]. reflexivity.
+  - destruct H as (-> & -> & _). destruct Hin as [<-|[]]. reflexivity.
+  - destruct H as (-> & -> & _). destruct Hin as [<-|[]]. reflexivity.
 Qed.
 
 (* ---- the system invariant -------------------------------------------------- *)
@@ -276,14 +291,78 @@ Proof.
   - destruct H as [_ H]. rewrite H in Hr. inversion Hr. auto.
 Qed.
 
-Theorem step_preserves_Inv : forall s i, Inv s -> Inv (step gunzip s i).
+Lemma own_step_exec_t : forall o a now d, own_step o a -> exec_t gunzip srv now d a = exec gunzip d a.
+Proof. intros o a now d H. destruct a; simpl in *; try contradiction; reflexivity. Qed.
+
+(* retrieveAndSaveFile for a response whose body is the origin's content for the name chosen *)
+Lemma populate_index_ok : forall o d0 dir etag,
+  prog_ok o d0 (populate_index o dir etag (origin (PIndex dir etag))).
+Proof.
+  intros. unfold populate_index. cbn [prog_ok]. split; [split; reflexivity|].
+  apply prog_ok_write_file; [reflexivity|].
+  cbn [adv_steps List.map fst snd prog_ok writes]. repeat split; auto.
+  apply upd_same.
+Qed.
+
+Lemma writes_populate_index : forall o dir e w q,
+  In q (writes (populate_index o dir e w)) -> q = PTmpFile dir o.
+Proof.
+  intros o dir e w q H. unfold populate_index in H. cbn [writes app] in H.
+  apply writes_write_file in H. destruct H as [H|H]; auto.
+  simpl in H. destruct H as [H|[]]; auto.
+Qed.
+
+(* a step that only decides how the builder continues (the disk is unchanged) *)
+Lemma decision_step_Inv : forall s i a rest pre,
+  Inv s -> nth_error (procs s) i = Some (a :: rest) ->
+  (forall q, In q (writes (pre ++ rest)) -> In q (writes (a :: rest))) ->
+  prog_ok i (dsk s) (pre ++ rest) ->
+  Inv {| dsk := dsk s; procs := set_nth (procs s) i (pre ++ rest); clk := S (clk s) |}.
+Proof.
+  intros s i a rest pre (HD & HF & HP) Ei Hw Hok. split; [exact HD|]. split.
+  - intros n t Hn Hl j prog Hj. cbn [dsk procs] in *.
+    destruct (Nat.eq_dec j i) as [->|Hne].
+    + erewrite set_nth_same in Hj by eauto. inversion Hj; subst prog.
+      intro Hin. apply (HF n t Hn Hl i _ Ei). auto.
+    + rewrite set_nth_other in Hj by auto. eapply HF; eauto.
+  - intros j prog Hj. cbn [dsk procs] in *.
+    destruct (Nat.eq_dec j i) as [->|Hne].
+    + erewrite set_nth_same in Hj by eauto. inversion Hj; subst prog. exact Hok.
+    + rewrite set_nth_other in Hj by auto. apply HP; auto.
+Qed.
+
+Theorem step_preserves_Inv : forall s i, Inv s -> Inv (step gunzip srv s i).
 Proof.
   intros s i (HD & HF & HP). unfold step.
   destruct (nth_error (procs s) i) as [[|a rest]|] eqn:Ei; try (repeat split; assumption).
   pose proof (HP i _ Ei) as Hok.
-  destruct (exec gunzip (dsk s) a) as [d' pre] eqn:Ex.
-  assert (Hd' : d' = fst (exec gunzip (dsk s) a)) by (rewrite Ex; reflexivity).
-  assert (Hpre : pre = snd (exec gunzip (dsk s) a)) by (rewrite Ex; reflexivity).
+  (* the steps of the index download that talk to the origin or decide *)
+  assert (Hidx : (exists o dir bh, a = Head o dir bh) \/ (exists o dir e bh, a = IdxStat o dir e bh) \/
+                 (exists o dir nm, a = Get o dir nm) \/
+                 (forall o dir bh, a <> Head o dir bh) /\ (forall o dir e bh, a <> IdxStat o dir e bh) /\
+                 (forall o dir nm, a <> Get o dir nm)).
+  { destruct a; try (right; right; right; repeat split; intros; discriminate);
+      [left | right; left | right; right; left]; repeat eexists. }
+  destruct Hidx as [(o & dir & bh & ->) | [(o & dir & e & bh & ->) | [(o & dir & nm & ->) | (Hn1 & Hn2 & Hn3)]]].
+  { (* HEAD: remember the etag *)
+    simpl in Hok. destruct Hok as (-> & -> & ->). cbn [exec_t].
+    eapply decision_step_Inv; [repeat split; assumption | exact Ei | |].
+    - intros q Hq. exact Hq.
+    - cbn [app prog_ok]. auto. }
+  { (* Stat of the name the HEAD's etag stands for *)
+    simpl in Hok. destruct Hok as (-> & -> & ->). cbn [exec_t exec].
+    eapply decision_step_Inv; [repeat split; assumption | exact Ei | |].
+    - intros q Hq. destruct (resolve (dsk s) (PIndex dir e)); [contradiction | exact Hq].
+    - destruct (resolve (dsk s) (PIndex dir e)); cbn [app prog_ok]; auto. }
+  { (* GET: name and body come from this one response *)
+    simpl in Hok. destruct Hok as (-> & -> & ->). cbn [exec_t].
+    pose proof (srv_ok (clk s) dir) as Hs. destruct (srv (clk s) dir) as [e2 body]. cbn [fst snd] in Hs. subst body.
+    eapply decision_step_Inv; [repeat split; assumption | exact Ei | |].
+    - intros q Hq. rewrite app_nil_r in Hq. apply writes_populate_index in Hq. subst q. simpl. auto.
+    - rewrite app_nil_r. apply populate_index_ok. }
+  destruct (exec_t gunzip srv (clk s) (dsk s) a) as [d' pre] eqn:Ex.
+  assert (Hd' : d' = fst (exec_t gunzip srv (clk s) (dsk s) a)) by (rewrite Ex; reflexivity).
+  assert (Hpre : pre = snd (exec_t gunzip srv (clk s) (dsk s) a)) by (rewrite Ex; reflexivity).
   (* classify the step *)
   assert (Hcases :
     (own_step i a /\ prog_ok i d' rest) \/
@@ -293,9 +372,12 @@ Proof.
     (exists src dst, a = Rename src dst)).
   { destruct a; simpl in Hok; try contradiction; subst d';
       try (left; destruct Hok; split; assumption); right;
-      [left|right; left|right; right; left|right; right; right]; eauto. }
+      [left|right; left|right; right; left|right; right; right|exfalso; eapply Hn1; eauto
+      |exfalso; eapply Hn2; eauto|exfalso; eapply Hn3; eauto]; eauto. }
+  clear Hn1 Hn2 Hn3.
   destruct Hcases as [[Hs Hrest] | [(src & dst & ->) | [(src & dst & ->) | [(gz & tar & tmp & ->) | (src & dst & ->)]]]].
   - (* ---- an own step ---- *)
+    rewrite (own_step_exec_t i a _ _ Hs) in Hd', Hpre.
     assert (Hnil : snd (exec gunzip (dsk s) a) = []) by (eapply own_step_pre; eauto).
     rewrite Hnil in Hpre. subst pre. clear Hnil. simpl.
     assert (Hw : forall n t, is_adv n = true -> dsk s n = Some (Link t) -> ~ In t (writes [a])).
@@ -448,7 +530,7 @@ Proof.
         apply agree_upd_r; [congruence|]. apply agree_upd_r; [congruence | apply agree_refl].
 Qed.
 
-Theorem run_preserves_Inv : forall sched s, Inv s -> Inv (run gunzip s sched).
+Theorem run_preserves_Inv : forall sched s, Inv s -> Inv (run gunzip srv s sched).
 Proof.
   unfold run. induction sched as [|i sched IH]; simpl; intros s H; auto.
   apply IH. apply step_preserves_Inv. exact H.
@@ -544,24 +626,10 @@ Proof.
     change s with (fst (s, t')). apply in_map. exact Hin.
 Qed.
 
-(* the builder's view of the origin: name and body come from one response *)
-Lemma populate_index_ok : forall o d0 dir etag,
-  pok o d0 (populate_index o dir etag (origin (PIndex dir etag))).
+Lemma populate_package_ok : forall cl o d0 dir a, served origin dir a ->
+  pok o d0 (populate_package_ord cl o dir a).
 Proof.
-  intros. unfold populate_index. cbn [prog_ok]. split; [split; reflexivity|].
-  apply prog_ok_write_file; [reflexivity|].
-  rewrite <- (app_nil_r (adv_steps _)).
-  apply prog_ok_adv_steps.
-  - repeat constructor. simpl. tauto.
-  - intros s _ [].
-  - intros d'. exact I.
-  - intros s t [E|[]]. inversion E; subst. repeat split. apply upd_same.
-Qed.
-
-Lemma populate_package_ok : forall o d0 dir a, served origin dir a ->
-  pok o d0 (populate_package o dir a).
-Proof.
-  intros o d0 dir a (Hc & Hs & Hd & Ht). unfold populate_package.
+  intros cl o d0 dir a (Hc & Hs & Hd & Ht). unfold populate_package_ord.
   cbn [app prog_ok]. split; [split; reflexivity|]. split; [reflexivity|].
   cbn [exec fst].
   set (d1 := match match d0 (PDir dir) with Some _ => d0 | None => upd d0 (PDir dir) (Some Dir) end
@@ -574,20 +642,21 @@ Proof.
     pok o d2 (Create (PTmpMem dir o MDat) :: Create (PTmpMem dir o MTar) ::
        mix (PTmpMem dir o MDat) (PTmpMem dir o MTar) (a_dat a) (a_tar a) ++
        Close (PTmpMem dir o MTar) :: Close (PTmpMem dir o MDat) ::
-       adv_steps (pkg_advs o dir a) ++ open_tar o dir (a_dath a))).
+       adv_steps (pkg_advs_ord cl o dir a) ++ open_tar o dir (a_dath a))).
   { intros d2 H2c H2s. apply prog_ok_pair; try reflexivity; try congruence.
     apply prog_ok_adv_steps.
-    - unfold pkg_advs. destruct (a_sig a); simpl; repeat constructor; simpl;
+    - unfold pkg_advs_ord, pkg_advs, pkg_advs_ctl_last. destruct cl; destruct (a_sig a); simpl; repeat constructor; simpl;
         intuition congruence.
     - intros s0 Hs0 Hin. simpl in Hin. destruct Hin as [<-|[]].
-      unfold pkg_advs in Hs0. destruct (a_sig a); simpl in Hs0; intuition discriminate.
+      unfold pkg_advs_ord, pkg_advs, pkg_advs_ctl_last in Hs0.
+      destruct cl; destruct (a_sig a); simpl in Hs0; intuition discriminate.
     - intros d'. unfold open_tar. cbn [prog_ok]. repeat split; eauto.
-    - intros s t Hin. unfold pkg_advs in Hin.
+    - intros s t Hin. unfold pkg_advs_ord, pkg_advs, pkg_advs_ctl_last in Hin.
       assert (Hcases : (s, t) = (PTmpMem dir o MCtl, PMember dir MCtl (a_ctlh a)) \/
               (exists sg, a_sig a = Some sg /\ (s, t) = (PTmpMem dir o MSig, PMember dir MSig (a_ctlh a))) \/
               (s, t) = (PTmpMem dir o MDat, PMember dir MDat (a_dath a)) \/
               (s, t) = (PTmpMem dir o MTar, PMember dir MTar (a_dath a))).
-      { destruct (a_sig a) eqn:Es; simpl in Hin; intuition eauto. }
+      { destruct cl; destruct (a_sig a) eqn:Es; simpl in Hin; intuition eauto. }
       destruct Hcases as [E|[(sg & Es & E)|[E|E]]]; inversion E; subst; repeat split.
       + rewrite !upd_other by congruence. rewrite <- Hc. exact H2c.
       + rewrite !upd_other by congruence. rewrite <- (Hs sg Es). apply H2s. exact Es.
@@ -607,9 +676,9 @@ Qed.
 End Protocols.
 
 (* ---- the property-level statements ----------------------------------------- *)
-Lemma nth_progs_from : forall origin bs k j prog,
-  nth_error (progs_from origin k bs) j = Some prog ->
-  exists b, nth_error bs j = Some b /\ prog = prog_of origin (k + j) b.
+Lemma nth_progs_from : forall cl bs k j prog,
+  nth_error (progs_from cl k bs) j = Some prog ->
+  exists b, nth_error bs j = Some b /\ prog = prog_of_ord cl (k + j) b.
 Proof.
   induction bs as [|b bs IH]; intros k j prog H; destruct j; simpl in *; try discriminate.
   - inversion H; subst. exists b. rewrite Nat.add_0_r. auto.
@@ -617,22 +686,34 @@ Proof.
     f_equal. lia.
 Qed.
 
-Theorem population_sound : forall origin gunzip bs sched,
-  origin_gunzip origin gunzip -> builders_ok origin bs ->
-  CacheSound origin (dsk (run gunzip (init (progs origin bs)) sched)).
+(* every reachable state satisfies the invariant (both orders of cachePackage) *)
+Theorem reach_Inv : forall cl origin srv gunzip bs sched,
+  origin_gunzip origin gunzip -> etag_names_content origin srv -> builders_ok origin bs ->
+  Inv gunzip origin (run gunzip srv (init (progs_ord cl bs)) sched).
 Proof.
-  intros origin gunzip bs sched Hgz Hok.
-  apply DiskOK_sound.
-  destruct (run_preserves_Inv gunzip origin Hgz sched (init (progs origin bs))) as (HD & _); auto.
+  intros cl origin srv gunzip bs sched Hgz Hsrv Hok.
+  apply (run_preserves_Inv gunzip origin srv Hgz Hsrv).
   apply init_Inv. intros j prog Hj.
   destruct (nth_progs_from _ _ _ _ _ Hj) as (b & Hb & ->).
   change (0 + j) with j.
   pose proof (nth_error_In _ _ Hb) as Hin.
-  destruct b as [dir e|dir a|dir dh]; unfold prog_of.
-  - apply (populate_index_ok gunzip origin).
+  destruct b as [dir|dir a|dir dh]; unfold prog_of_ord.
+  - cbn [prog_ok]. auto.
   - apply (populate_package_ok gunzip origin). apply Hok. exact Hin.
   - unfold open_tar. cbn [prog_ok]. repeat split; eauto.
 Qed.
+
+Theorem population_sound_ord : forall cl origin srv gunzip bs sched,
+  origin_gunzip origin gunzip -> etag_names_content origin srv -> builders_ok origin bs ->
+  CacheSound origin (dsk (run gunzip srv (init (progs_ord cl bs)) sched)).
+Proof.
+  intros. apply DiskOK_sound. eapply reach_Inv; eauto.
+Qed.
+
+Theorem population_sound : forall origin srv gunzip bs sched,
+  origin_gunzip origin gunzip -> etag_names_content origin srv -> builders_ok origin bs ->
+  CacheSound origin (dsk (run gunzip srv (init (progs bs)) sched)).
+Proof. intros. apply population_sound_ord; assumption. Qed.
 
 Lemma resolve_exists : forall d n r, resolve d n = Some r -> d n <> None.
 Proof. unfold resolve. intros d n r H E. rewrite E in H. discriminate. Qed.
@@ -734,6 +815,10 @@ Definition w_apk : apk :=
   {| a_sig := None; a_ctl := ["ctl"]; a_dat := ["gz"]; a_tar := ["t1"; "t2"]; a_ctlh := "c"; a_dath := "d" |}.
 Definition w_gunzip (z : content) : content := ["t1"; "t2"].
 Definition w_dh (c : content) : string := "d".
+(* an origin that never changes its index revision *)
+Definition w_srv : server := fun _ _ => ("E", ["i1"; "i2"]).
+Lemma w_srv_ok : etag_names_content w_origin w_srv.
+Proof. intros t dir. reflexivity. Qed.
 
 (* builder 0 populates and is killed between advertising <d>.dat.tar.gz and
    <d>.dat.tar (16 steps); builder 1 is a later build whose cachedPackage finds
@@ -745,8 +830,8 @@ Definition w_dh (c : content) : string := "d".
 Definition w_bs : list builder := [BPackage "p" w_apk; BReader "p" "d"; BPackage "p" w_apk].
 Definition w_sched : list nat := repeat 0 16 ++ [1; 1; 1] ++ repeat 2 40.
 Definition w_sched2 : list nat := repeat 0 16 ++ repeat 1 10.
-Definition w_disk : disk := dsk (run w_gunzip (init (progs w_origin w_bs)) w_sched).
-Definition w_disk2 : disk := dsk (run w_gunzip (init (progs w_origin w_bs)) w_sched2).
+Definition w_disk : disk := dsk (run w_gunzip w_srv (init (progs w_bs)) w_sched).
+Definition w_disk2 : disk := dsk (run w_gunzip w_srv (init (progs w_bs)) w_sched2).
 
 Lemma w_bs_ok : builders_ok w_origin w_bs.
 Proof.
@@ -773,8 +858,9 @@ Proof. vm_compute. repeat split. Qed.
 
 (* an index download killed after its first write: the temporary file is what
    fetchOffline may pick (newest mtime in the directory) *)
-Definition w2_bs : list builder := [BIndex "i" "E"].
-Definition w2_disk : disk := dsk (run w_gunzip (init (progs w_origin w2_bs)) [0; 0; 0]).
+Definition w2_bs : list builder := [BIndex "i"].
+Definition w2_sched : list nat := repeat 0 6.     (* HEAD, Stat, GET, MkdirAll, CreateTemp, one write *)
+Definition w2_disk : disk := dsk (run w_gunzip w_srv (init (progs w2_bs)) w2_sched).
 Lemma offline_returns_partial :
   read_offline w2_disk (PTmpFile "i" 0) = Some (["i1"], false) /\
   forall n, w_origin n <> ["i1"].
